@@ -248,6 +248,45 @@ CLAIMED.update({
         "design": "DESIGN.md section 3 C12",
     },
 })
+
+CLAIMED["C01"]["text"] = ("Clauses on the in-language nondeterminism sources: (1) every value derived from time.perf_counter()/time.time() in "
+    "run_turn flows only into other timing locals or into record fields with masked timing keys (taint analysis over the AST), and "
+    "normalize_for_identity is proved (Engine V, all records) to zero/drop exactly those fields for every record of an identity stream, "
+    "yielded or not; (2) no hash-order dependent iteration over a set in the listed stage functions; (3) module-wide, for every module "
+    "on the turn path (engine, stages, orchestrator, memory, graph, io, adapters): no function uses the value of hash()/id()/random/"
+    "uuid/secrets/os.urandom (existing sites whitelisted one by one with reasons). The (-score, id) tie-breaks are postconditions of the "
+    "C03/C11/C18 contracts. The dependence of scheduler yields on wall-clock time is a known finding.")
+CLAIMED["C01"]["note"] = ("Decides only 'no listed nondeterminism source reaches an observable sink'. Not decided: bit-reproducibility of numpy/BLAS, "
+    "warm vs fresh process (module-level caches change the cache counters), thread timing of the parallel T1 cache, datetime.now() fallbacks when "
+    "ctx.now is missing or a timestamp is unparsable, mtime-ordered snapshot discovery (DESIGN.md section 11).")
+CLAIMED["C05"]["text"] += (" Attributes of the turn context read after the lookup (ctx.x / getattr(ctx, 'x')) must feed the key too: this clause "
+    "found the per-slice cap ctx.slice_budgets['t2_k'] missing from the T2 key (repaired in /repo).")
+CLAIMED["C11"]["text"] += (" Both sequential tier walks of t2_semantic are verified as regions against an abstract index: every search_tiered call "
+    "passes the stage's sim_threshold, owner, k, the tier's own hint and the logical now (call-site preconditions), only served tiers are "
+    "searched, at most k hits with distinct ids are collected.")
+CLAIMED["C14"]["text"] = ("The per-function parts contracts can reach: _suggest_key is total for every JSON/YAML key type (Engine V; _lev's "
+    "precondition is a call-site obligation); the unknown-key loops use keys only opaquely; the normaliser raises only ConfigError (every raise "
+    "statement); int(v)/float(v) of an untrusted leaf sit inside catch-all handlers (_coerce_int/_coerce_float: OverflowError cannot escape); "
+    "purity as copy-on-normalise discipline: _ensure_dict/_deep_merge/_ensure_subdict return freshly built dicts and do not write their "
+    "arguments, and in the normaliser every written container is a local bound only to fresh copies; all API variants run the normaliser on "
+    "their own argument and map ConfigError to the same message list.")
+CLAIMED["C14"]["note"] = ("Engine-F (AST, name-level) clauses except _suggest_key. NOT decided: totality over arbitrary leaf values through the "
+    "1300-line normaliser beyond the coercion helpers, the CLI exit code, and 'every accepted config is runnable' -- the validator accepts "
+    "values it never type-checks for several allowed keys (DESIGN.md section 11); _lev is an assumed contract.")
+CLAIMED["C18"]["text"] += (" NaN scores: observe_retrieval on an item list of shape [(a, nan), (b, s)] never uses the NaN item (no pair, no edge written).")
+CLAIMED["C18"]["note"] = CLAIMED["C18"]["note"].replace("NaN not modelled; spot-checked natively that NaN fails the threshold test", "NaN is a single concrete value, not part of the symbolic float sort: a change that lets NaN flow into a score list is undecided, see DESIGN section 10")
+CLAIMED["C12"]["text"] += (" The T1 stage-cache key clause (key built from the slice-clamped budgets) is registered for C12 as well: a cache hit must not bypass a tighter per-slice cap.")
+
+CLAIMED["C07"]["text"] += (" The disk half is under contract (Engine V, proof, all inputs) against an abstract snapshot directory: read_snapshot (by path and "
+    "by etag) reconstructs a delta only from the baseline file named by the delta's own header found in the baseline directory, and with the "
+    "baseline missing returns the sibling/full file's payload or {} -- never the delta body and never a reconstruction; write_snapshot_auto "
+    "writes exactly one file: a delta (header naming baseline and target, body = compute_delta(baseline payload, payload)) iff delta mode was "
+    "requested and the baseline full file exists, otherwise a full file with the whole payload.")
+CLAIMED["C07"]["note"] = ("The round-trip law itself is bounded exploration (same symbolic semantics, keys encoded as lists of dot-free words), not proof, and "
+    "fails for '' / '.' keys (known findings). In the disk contracts _find_snapshot_file, _read_header_payload and _write_lines are assumed "
+    "contracts over ghost files (what json.loads / zstd / the atomic writer do is C08 / not modelled), apply_delta / compute_delta are "
+    "uninterpreted functions, os.path.join is uninterpreted with one stated fact; corrupt baselines (unparsable JSON: an exception of "
+    "_read_header_payload) and the delta branch of load_latest_snapshot are not under contract.")
 PENDING_REASON = "check not built yet (construction in progress, see DESIGN.md section 3)"
 NA = {}
 
